@@ -155,7 +155,7 @@ contract(AC + "._send_command_get_responses",
          raises={},
          ensures={"one_exchange": "len(events('sent')) == 1 and same_object(events('sent')[0], command)",
                   "every_frame_is_examined": "final('_i') == len(final('responses'))"},
-         loops={"0": {"havoc": {"valid_responses": "list:" + ANY_RESPONSE},
+         loops={"0": {"match": "responses", "havoc": {"valid_responses": "list:" + ANY_RESPONSE},
                       "invariant": ["len(valid_responses) <= _i"],
                       "step_ensures": {"kept_iff_decodable": "len(valid_responses) == pre(len(valid_responses)) + (1 if accepts(pre(data)) else 0)"}}})
 
@@ -167,7 +167,7 @@ contract(AC + "._send_command_get_response_with_id",
          raises={},
          ensures={"matching_id": "implies(result is not None, result._id == response_id)",
                   "one_exchange": "len(events('sent')) == 1 and same_object(events('sent')[0], command)"},
-         loops={"0": {"invariant": []}})
+         loops={"0": {"match": "_send_command_get_responses", "invariant": []}})
 
 ALL_UPDATED = STATE_ATTRS + PROP_ATTRS + ENERGY_ATTRS + HUM_ATTRS
 
@@ -180,7 +180,7 @@ contract(AC + ".refresh",
          emits={"sent": "GetStateCommand()"},
          ensures={"state_always_queried": "len(S) >= 1 and isinstance(S[0], GetStateCommand)",
                   "queries_only": "len(S) <= 4"},
-         loops={"0": {"modifies": ALL_UPDATED}})
+         loops={"0": {"match": "responses", "modifies": ALL_UPDATED}})
 
 contract(AC + ".refresh#one_state_response",
          params={"self": "obj:" + AC}, globals=G,
@@ -239,7 +239,7 @@ contract(AC + ".apply",
              "c16.changes_cleared": "implies(len(old(self._updated_properties)) > 0, len(self._updated_properties) == 0)",
              "c16.changes_kept_when_none": "implies(len(old(self._updated_properties)) == 0, self._updated_properties == old(self._updated_properties))",
          },
-         loops={"0": {"modifies": ALL_UPDATED}})
+         loops={"0": {"match": "_send_command_get_responses", "modifies": ALL_UPDATED}})
 
 def sent_props(cmd):
     return cmd._properties
@@ -273,7 +273,7 @@ contract(AC + "._apply_properties",
                   "buzzer_added": "S[0]._properties[PropertyId.BUZZER] == old(self._beep_on)",
                   "requested_props_sent": "same_object(S[0]._properties, properties) or S[0]._properties == properties"},
          emits={"sent": "SetPropertiesCommand(properties)"},
-         loops={"1": {"modifies": ALL_UPDATED}})
+         loops={"1": {"match": "_send_command_get_responses", "modifies": ALL_UPDATED}})
 
 contract(AC + ".start_self_clean",
          params={"self": "obj:" + AC}, globals=G,
